@@ -728,8 +728,30 @@ impl World {
         self.memory_dirty = !self.dirty_fabs.is_empty();
         if !armed_device {
             if matches!(op, Op::CompleteC(_)) && was_armed.is_some() && !store_failed {
-                // a completed commissioning commits whatever was changed under the fail-safe
-                self.committed = cfg.clone();
+                // a completed commissioning commits whatever was changed under the fail-safe; a fabric whose
+                // memory image is ahead of the store (a refused change outside that commissioning) stays as it is
+                let mut newc = cfg.clone();
+                // (the fabric of the commissioning itself is persisted by the completion)
+                if let Op::CompleteC(f) = op {
+                    self.dirty_fabs.remove(&f);
+                    self.memory_dirty = !self.dirty_fabs.is_empty();
+                }
+                for d in &self.dirty_fabs {
+                    newc.fabrics.retain(|x| x.idx != *d);
+                    if let Some(old) = self.committed.fabrics.iter().find(|x| x.idx == *d) {
+                        newc.fabrics.push(old.clone());
+                    }
+                    match self.committed.kv.get(&(*d as u16)) {
+                        Some(v) => {
+                            newc.kv.insert(*d as u16, *v);
+                        }
+                        None => {
+                            newc.kv.remove(&(*d as u16));
+                        }
+                    }
+                }
+                newc.fabrics.sort_by_key(|x| x.idx);
+                self.committed = newc;
             } else if was_armed.is_none() && !matches!(op, Op::Restart | Op::Tick | Op::FailNextStore | Op::FailSecondStore) && !store_failed && !self.memory_dirty {
                 // changes outside a fail-safe are committed one by one (label / ACL writes, fabric removal)
                 self.committed = cfg.clone();
